@@ -11,6 +11,7 @@ import ZapVerif.Model.TransCEAddX
 import ZapVerif.Model.TransCoresX
 import ZapVerif.Model.TransLoggerX
 import ZapVerif.Model.TransLockedX
+import ZapVerif.Model.TransSweetenX
 import ZapVerif.Gen.TransProbe
 /-! `zvdrv CTR`: the interpreter side of the translator's differential test.  An op names a generated table and a
     function, gives arguments and receiver fields; the handler runs the GENERATED term in the GoMini interpreter
@@ -142,6 +143,14 @@ def probeExt : String → List Val → Option (List Val)
   | "ProbeFn", [.int k, .int x] => some [.int (k * x + 1)]
   | _, _ => none
 
+/-- the argument encoding of harness/cmd/zvh/trans_sweeten.go: `[0, key]` Field, `[1, id]` error, `[2, s]` string, anything
+    else another value; `cap` is not observable (any function with `cap s = 0 → s = []` gives the same results) -/
+def sweetenPar : ZapVerif.TransSweeten.Par :=
+  { asField := fun v => match v with | .list (.int 0 :: _) => some v | _ => none,
+    asErr := fun v => match v with | .list (.int 1 :: _) => some v | _ => none,
+    asStr := fun v => match v with | .list [.int 2, .bytes s] => some s | _ => none,
+    cap := fun v => match v with | .list l => l.length | _ => 0 }
+
 def tables : List (String × (Env → Ctx)) := [
   ("TransProbe", fun _ => { ext := probeExt, funs := ZapVerif.Gen.TransProbe.funs }),
   ("TransJsonSep", fun _ => ZapVerif.TransJsonSep.X),
@@ -151,6 +160,7 @@ def tables : List (String × (Env → Ctx)) := [
   ("TransEscape", fun _ => ZapVerif.TransEscape.X),
   ("TransCE", fun _ => ZapVerif.TransCE.X),
   ("TransCEAdd", fun _ => ZapVerif.TransCEAdd.X),
+  ("TransSweeten", fun _ => ZapVerif.TransSweeten.X sweetenPar),
   ("TransLocked", fun _ => ZapVerif.TransLocked.X lockedPar),
   ("TransLogger", fun e => ZapVerif.TransLogger.X (loggerPar e)),
   ("TransCores", fun e => ZapVerif.TransCores.X (coresPar e)),
